@@ -39,7 +39,7 @@ def spellings(m):
         yield from case_variants(FULL[m - 1])
 
 
-NON_MONTHS = [0, 13, -1, 100, "0", "13", "00", "000", "013", "1 ", " 1", "1.0", "+1", "{jan}", '"1"', "{1}", "janu", "sept", "", " jan", "jan ", "ja", "januaryy", "marc", None, ["jan"], 1.5, ("jan",), "jan.", "Jan-Feb"]
+NON_MONTHS = [0, 13, -1, 100, "0", "13", "00", "000", "013", "1 ", " 1", "1.0", "+1", "{jan}", '"1"', "{1}", "janu", "sept", "", " jan", "jan ", "ja", "januaryy", "marc", None, ["jan"], 1.5, ("jan",), "jan.", "Jan-Feb", "\u017fep", "\u017feptember", "augu\u017ft", "augu\ufb06", "\u017fept", "mar\u0307", "Ma\u0131", "\u0130un", "JUN\u0307"]
 
 
 def unicode_alphabet():
